@@ -1,6 +1,7 @@
 package art
 
 import (
+	"bytes"
 	"encoding/binary"
 	"math"
 	"math/bits"
@@ -33,7 +34,12 @@ type CollationOrderKey[K chars | []rune] struct {
 func (cok *CollationOrderKey[K]) Transform(k K) ([]byte, []byte) {
 	cok.src = k
 	b := []byte(string(k))
-	return b, cok.c.Key(cok.buf, b)
+
+	// the buffer only ever grows and the keys it returns alias it:
+	// take a private copy of the key and release the buffer
+	colKey := bytes.Clone(cok.c.Key(cok.buf, b))
+	cok.buf.Reset()
+	return b, colKey
 }
 func (cok *CollationOrderKey[K]) Restore(b []byte) K { return cok.src }
 
